@@ -642,6 +642,13 @@ func judgeHist(w *core.W, c *histCase, prop string) {
 				w.Count("abandoned:accept-disagreement(C08)")
 				return
 			}
+			if refused && len(methods) > 1 {
+				// a registration for several methods that is refused part-way: which of the methods were registered
+				// before the refusal depends on the order the router walks them in (C08/C11's subject); the history is
+				// not judged any further (found by the thorough tier at seed 1: one request in 7.7 million)
+				w.Count("abandoned:multi-method-registration-refused-part-way")
+				return
+			}
 			o := &routeObj{idx: idx, ast: mr, methods: okMethods, fr: fr, twin: map[string]route.Leaf{}}
 			o.static = true
 			for i := range mr.Segs {
